@@ -17,4 +17,18 @@ theorem facts_as_audited :
     Facts.envCalls = ["parser/parser.go:parse:filepath.Abs", "parser/parser.go:evaluateImports:os.Executable"] := by
   decide
 
+/-- **Where state can live**: the fields of the transpiler object, of the two converters, of the
+    parser and of its context are exactly the audited ones (re-extracted on every run).  The
+    transpiler object stores only the current converter; a converter and a parser are created per
+    `Transpile` call.  The Lean models mirror exactly these fields (`Bash.St`, `Batch.St`, the parser
+    model's state), so a field added to the code without a counterpart in the model is reported. -/
+theorem state_structs_as_audited :
+    Facts.stateStructs =
+      ["converters/bash/converter.go:converter: interpreter string; startCode []string; code []string; varCounter int; forCounter int; fors []int; funcs []funcInfo; funcCounter int; sliceAssignmentHelperRequired bool; sliceCopyHelperRequired bool; stringSubscriptHelperRequired bool",
+       "converters/batch/converter.go:converter: startCode []string; helperCode []string; globalCode []string; previousFunctionName string; functionsCode [][]string; endCode []string; varCounter int; ifCounter int; forCounter int; endLabels []string; funcs []funcInfo; funcCounter int; fors []forInfo; ifs []ifInfo; lfSet bool; appCallHelperRequired bool; readHelperRequired bool; sliceAssignmentHelperRequired bool; sliceCopyHelperRequired bool; sliceLenSetHelperRequired bool; sliceLenGetHelperRequired bool; stringSubscriptHelperRequired bool; stringLenHelperRequired bool; fileWriteHelperRequired bool; echoHelperRequired bool",
+       "parser/parser.go:context: imports map[string]string; variables map[string]Variable; functions map[string]FunctionDefinition; scopeStack []scope",
+       "parser/parser.go:Parser: tokens []lexer.Token; index int; path string; prefix string; currFunc string; importing []string; usedFuncs map[string][]string",
+       "transpiler/transpiler.go:transpiler: converter Converter"] := by
+  rfl
+
 end Tsh.C14
